@@ -922,3 +922,190 @@ Qed.
 Lemma split_pieces_modelled_example :
   exists ss, bs_split (cont_spec (CSchema "j5.schema.v1.Ref")) = Some ss /\ sp_delim ss = Some "."%string.
 Proof. vm_compute. eexists. split; reflexivity. Qed.
+
+(* ------------------------------------------------------------------ the class "nested scalar split" is empty
+   set_attribute answers [RUnmod "nested scalar split"] when its fuel (split_depth = 3) runs out: a container set
+   from a scalar whose split targets are again containers with a split, ...  For the translated schema every
+   target of every split is ONE name that is no alias and is a property of the container's own schema which is
+   neither a container nor a map of containers (computed over [schemas]: [schemas_split_terminal]; a split
+   target that is itself a container breaks it at make time).  So below any container the walker reaches, ONE
+   unit of fuel suffices: setContainerFromScalar's setAttribute calls end in a leaf. *)
+Local Notation W_NEST := "nested scalar split"%string.
+
+Definition split_targets (ss : split) : list (list string) :=
+  sp_req ss ++ sp_opt ss ++ match sp_rem ss with Some r => [r] | None => [] end.
+Definition leaf_ptype (t : ptype) : bool :=
+  match t with PObject _ | POneof _ | PMapContainer => false | _ => true end.
+Definition target_terminal (d : sdef) (pth : list string) : bool :=
+  match pth with
+  | [n] => match assoc n (bs_aliases (build_spec d)) with
+           | Some _ => false
+           | None => match find (fun p => String.eqb (pd_name p) n) (sd_props d) with
+                     | Some pd => leaf_ptype (pd_ty pd)
+                     | None => false
+                     end
+           end
+  | _ => false
+  end.
+Definition schema_split_terminal (d : sdef) : bool :=
+  match bs_split (build_spec d) with
+  | Some ss => forallb (target_terminal d) (split_targets ss)
+  | None => true
+  end.
+Lemma schemas_split_terminal : forallb schema_split_terminal schemas = true.
+Proof. vm_compute. reflexivity. Qed.
+
+Lemma append_all_not_nest k lp vs s : append_all k lp vs s <> RUnmod W_NEST.
+Proof.
+  revert s. induction vs as [|v r IH]; intro s; cbn [append_all]; [discriminate|].
+  destruct (conv_scalar k v); [apply IH|discriminate|discriminate].
+Qed.
+Lemma set_leaf_not_nest fk lp v app s : set_leaf fk lp v app s <> RUnmod W_NEST.
+Proof.
+  unfold set_leaf.
+  destruct (match v with AArr vs _ => Some (map aval_of vs) | _ => if app then Some [v] else None end) as [vs|].
+  - destruct fk; try discriminate. apply append_all_not_nest.
+  - destruct fk; try discriminate. destruct (conv_scalar k v); discriminate.
+Qed.
+
+Lemma scope_field_terminal sn d c n pd hint s :
+  cf_cont c = CSchema sn -> find_schema sn = Some d -> cf_spec c = build_spec d ->
+  assoc n (bs_aliases (build_spec d)) = None ->
+  find (fun p => String.eqb (pd_name p) n) (sd_props d) = Some pd ->
+  pd_ty pd <> PMapContainer ->
+  scope_field (new_child_scope c) n hint false s = RErr None E_ALREADY_SET \/
+  exists lp s', scope_field (new_child_scope c) n hint false s = ROk (fkind_of (pd_ty pd), lp) s'.
+Proof.
+  intros Hc Hfs Hspec Hal Hfind Hty.
+  assert (Hfp : find_prop (cf_cont c) n = Some pd).
+  { rewrite Hc. unfold find_prop, cont_props. rewrite Hfs. exact Hfind. }
+  assert (Hhas : has_property (cf_cont c) n = true).
+  { unfold has_property. rewrite Hfp. rewrite Hc. reflexivity. }
+  unfold scope_field, new_child_scope. cbn [sc_blocks find_block]. rewrite Hspec, Hal, Hhas.
+  cbn [pop_last walk_to_child rbind]. rewrite Hhas. cbn [negb]. rewrite Hfp.
+  destruct (cf_cont c) as [sn'|k]; [|discriminate Hc].
+  destruct (pd_ty pd) eqn:Et; try (exfalso; apply Hty; reflexivity);
+    (destruct (loc_has (ws_loc s) (cf_loc c ++ pd_path pd)); [left; reflexivity|right; eexists; eexists; reflexivity]).
+Qed.
+
+Lemma set_attribute_terminal d0 sn d c pth v s :
+  cf_cont c = CSchema sn -> find_schema sn = Some d -> cf_spec c = build_spec d ->
+  target_terminal d pth = true ->
+  set_attribute (S d0) (new_child_scope c) pth [] v false s <> RUnmod W_NEST.
+Proof.
+  intros Hc Hfs Hspec Ht.
+  destruct pth as [|n [|n2 r]]; try discriminate Ht. cbn [target_terminal] in Ht.
+  destruct (assoc n (bs_aliases (build_spec d))) eqn:Hal; [discriminate Ht|].
+  destruct (find (fun p => String.eqb (pd_name p) n) (sd_props d)) as [pd|] eqn:Hfind; [|discriminate Ht].
+  assert (Hty : pd_ty pd <> PMapContainer) by (intro E; rewrite E in Ht; discriminate Ht).
+  cbn [set_attribute combine_path map app pop_last walk_scope rbind].
+  destruct (scope_field_terminal sn d c n pd (aval_span v) s Hc Hfs Hspec Hal Hfind Hty) as [E|(lp & s' & E)];
+    rewrite E; cbn [repos rbind fst snd]; [discriminate|].
+  destruct (pd_ty pd); cbn [leaf_ptype] in Ht; try discriminate Ht; cbn [fkind_of]; apply set_leaf_not_nest.
+Qed.
+
+Lemma set_each_not_nest (f : setter) sc ps vs s :
+  (forall pth v s', In pth ps -> f sc pth v s' <> RUnmod W_NEST) -> set_each f sc ps vs s <> RUnmod W_NEST.
+Proof.
+  revert vs s. induction ps as [|pth ps IH]; intros vs s Hf; [destruct vs; discriminate|].
+  destruct vs as [|v vs]; [discriminate|]. cbn [set_each].
+  destruct (f sc pth v s) as [u s1|sp c|w] eqn:E; cbn [rbind].
+  - apply IH. intros p' v' s' Hin. apply Hf. right. exact Hin.
+  - discriminate.
+  - rewrite <- E. apply Hf. left. reflexivity.
+Qed.
+
+Lemma join_remainder_not_unmod rem dflt w : join_remainder rem dflt <> RUnmod w.
+Proof. unfold join_remainder. destruct (find _ _) as [[bad o]|]; discriminate. Qed.
+
+Lemma set_from_pieces_not_nest (f : setter) csc ss vals0 s :
+  (forall pth v s', In pth (split_targets ss) -> f csc pth v s' <> RUnmod W_NEST) ->
+  set_from_pieces f csc ss vals0 s <> RUnmod W_NEST.
+Proof.
+  intro Hf. unfold set_from_pieces.
+  set (vals := if sp_rtl ss then rev vals0 else vals0).
+  destruct (Nat.ltb (length vals) (length (sp_req ss))); [discriminate|].
+  destruct (set_each f csc (sp_req ss) (firstn (length (sp_req ss)) vals) s) as [u s5|sp c|w] eqn:E1; cbn [rbind].
+  - destruct (skipn (length (sp_req ss)) vals) as [|r0 rest] eqn:Er; [discriminate|].
+    set (rest' := r0 :: rest).
+    destruct (set_each f csc (sp_opt ss)
+                (if Nat.ltb (length (sp_opt ss)) (length rest') then firstn (length (sp_opt ss)) rest' else rest') s5)
+      as [u2 s6|sp c|w] eqn:E2; cbn [rbind].
+    + destruct (if Nat.ltb (length (sp_opt ss)) (length rest') then skipn (length (sp_opt ss)) rest' else [])
+        as [|first rest2] eqn:Er2; [discriminate|].
+      destruct (sp_rem ss) as [rp|] eqn:Erem; [|discriminate].
+      destruct (join_remainder _ first) as [j sj|sp c|w] eqn:Ej.
+      * apply Hf. unfold split_targets. rewrite Erem. apply in_or_app. right. apply in_or_app. right. left. reflexivity.
+      * discriminate.
+      * exfalso. exact (join_remainder_not_unmod _ _ _ Ej).
+    + discriminate.
+    + rewrite <- E2. apply set_each_not_nest. intros pth v s' Hin. apply Hf. unfold split_targets.
+      apply in_or_app. right. apply in_or_app. left. exact Hin.
+  - discriminate.
+  - rewrite <- E1. apply set_each_not_nest. intros pth v s' Hin. apply Hf. unfold split_targets.
+    apply in_or_app. left. exact Hin.
+Qed.
+
+Lemma split_pieces_not_nest ss val : split_pieces ss val <> RUnmod W_NEST.
+Proof.
+  unfold split_pieces. destruct (sp_delim ss) as [dl|].
+  - destruct (negb (String.eqb dl ".")); [discriminate|]. destruct (as_string val); discriminate.
+  - destruct val; discriminate.
+Qed.
+
+Lemma split_nesting_bounded d0 c val s :
+  cf_spec c = cont_spec (cf_cont c) ->
+  set_container_from_scalar (fun sc' p' v' s' => set_attribute (S d0) sc' p' [] v' false s')
+                            (new_child_scope c) (cf_spec c) val s <> RUnmod W_NEST.
+Proof.
+  intro Hspec. unfold set_container_from_scalar.
+  destruct (bs_split (cf_spec c)) as [ss|] eqn:Es; [|discriminate].
+  destruct (split_pieces ss val) as [vals0 s0|sp cd|w] eqn:Ep.
+  - apply set_from_pieces_not_nest. intros pth v s' Hin.
+    destruct (cf_cont c) as [sn|k] eqn:Hc; cbn [cont_spec] in Hspec; [|rewrite Hspec in Es; discriminate Es].
+    destruct (find_schema sn) as [d|] eqn:Hfs; [|rewrite Hspec in Es; discriminate Es].
+    apply (set_attribute_terminal d0 sn d c pth v s' Hc Hfs Hspec).
+    pose proof schemas_split_terminal as H. rewrite forallb_forall in H.
+    assert (Hd : In d schemas) by (unfold find_schema in Hfs; apply find_some in Hfs; exact (proj1 Hfs)).
+    specialize (H d Hd). unfold schema_split_terminal in H. rewrite <- Hspec, Es in H.
+    rewrite forallb_forall in H. exact (H pth Hin).
+  - discriminate.
+  - intro H. injection H as ->. exact (split_pieces_not_nest _ _ Ep).
+Qed.
+
+(* hypotheses satisfiable, and the result of such a call: j5.schema.v1.Ref has a split with two terminal targets *)
+Lemma split_nesting_example :
+  schema_split_terminal (match find_schema "j5.schema.v1.Ref" with Some d => d | None => mkSD "" false [] end) = true /\
+  exists ss, bs_split (cont_spec (CSchema "j5.schema.v1.Ref")) = Some ss /\ split_targets ss = [["schema"]; ["package"]]%string.
+Proof. vm_compute. split; [reflexivity|]. eexists. split; reflexivity. Qed.
+
+(* ------------------------------------------------------------------ the class "float literal" is gone
+   model/CmpbWalk.v conv_scalar models strconv.ParseFloat(lit, 64) on every INT / DECIMAL token (float_lit_ok:
+   ASCII digits and the dot; integer part below 2^1024 - 2^970), so [ConvUnmod] is never returned.  The width:
+   every float property of the translated schema is float64 (a float32 property would need the float32 bound). *)
+Lemma no_float32_props :
+  forallb (fun r => match r with (_, _, ps) =>
+             forallb (fun p => match p with (_, _, _, (_, ref, _, _), _) => negb (String.eqb ref "float32") end) ps end)
+          WalkSchemaGen.schemas = true.
+Proof. vm_compute. reflexivity. Qed.
+
+Lemma conv_scalar_modelled k a : conv_scalar k a <> ConvUnmod.
+Proof.
+  destruct k; cbn [conv_scalar].
+  - destruct (as_string a); discriminate.
+  - destruct (as_bool a); discriminate.
+  - destruct (as_int bits a); discriminate.
+  - destruct (as_uint bits a); discriminate.
+  - destruct (float_tok a) as [l|]; [destruct (float_lit_ok l)|]; discriminate.
+  - destruct (as_string a) as [l|]; [|discriminate]. destruct (all_ascii l); [|discriminate].
+    destruct (_ || _); discriminate.
+  - discriminate.
+  - discriminate.
+Qed.
+
+Lemma float_literal_example :
+  conv_scalar KFloat (ATok (mkTok INT (50%N :: repeat 48%N 308) pos0 pos0) span0) = ConvErr /\
+  conv_scalar KFloat (ATok (mkTok INT (49%N :: repeat 48%N 308) pos0 pos0) span0) = ConvOk (2%N, 49%N :: repeat 48%N 308) /\
+  conv_scalar KFloat (ATok (mkTok DECIMAL [49; 46; 1635]%N pos0 pos0) span0) = ConvErr /\
+  conv_scalar KFloat (ATok (mkTok DECIMAL [49; 46]%N pos0 pos0) span0) = ConvOk (2%N, [49; 46]%N).
+Proof. vm_compute. repeat split; reflexivity. Qed.
